@@ -56,6 +56,12 @@ type Solver struct {
 
 var z3Path = "z3"
 
+// check-sat-using runs a (non-incremental) tactic on the current assertion
+// stack; it is several times faster than z3's incremental core on the
+// modular 16-bit window arithmetic of these queries and still supports
+// push/pop and get-value.
+var checkSatCmd = "(check-sat-using qfaufbv)\n"
+
 func NewSolver(timeoutMs int) *Solver {
 	s := &Solver{timeout: timeoutMs}
 	s.Stats.Winners = map[string]int{}
@@ -166,7 +172,7 @@ func (s *Solver) Check(pc []*Term, extra *Term, want map[string]*Term) (Result, 
 		s.em.Emit(&sb, extra)
 		fmt.Fprintf(&sb, "(assert %s)\n", extra.ref())
 	}
-	sb.WriteString("(check-sat)\n")
+	sb.WriteString(checkSatCmd)
 	s.send(sb.String())
 	limit := time.Duration(s.timeout)*time.Millisecond + 10*time.Second
 	line, ok := s.readLine(limit)
@@ -197,6 +203,10 @@ func (s *Solver) Check(pc []*Term, extra *Term, want map[string]*Term) (Result, 
 		s.Close()
 		s.Stats.Unknown++
 		return Unknown, nil
+	}
+	if d := os.Getenv("GOSMT_SLOW"); d != "" && time.Since(t0) > 2*time.Second {
+		os.MkdirAll(d, 0o755)
+		os.WriteFile(fmt.Sprintf("%s/slow-%d-%s-%.0fs.smt2", d, time.Now().UnixNano(), r, time.Since(t0).Seconds()), []byte(DumpQuery(pc, extra, "", nil)), 0o644)
 	}
 	var m Model
 	if r == Sat && len(want) > 0 {
